@@ -2,6 +2,7 @@
 //! One case per input line, one canonical result line per case on stdout.
 mod builder_cases;
 mod intern_cases;
+mod red_cases;
 mod interners;
 mod syn;
 
@@ -40,6 +41,7 @@ fn run_line(line: &str) -> String {
         "B" => builder_cases::run_case(&args),
         "H" => builder_cases::run_history(&args),
         "I" => intern_cases::run_case(&args),
+        "N" => red_cases::run_case(&args),
         "P" => intern_cases::run_concurrent(&args),
         "L" => {
             // same as H, plus: all memory of the history (trees, cache, interner) is released exactly once
